@@ -62,3 +62,21 @@ pub fn diag(main: &str) -> i32 {
     println!("{}", json!({"files": files}));
     0
 }
+
+/// `fileids WORKSPACE`: {"files": {path: file id}} for every non-std file, as the loaders of
+/// emmylua_check / emmylua_doc_cli register them (same collection order, hence the same ids)
+pub fn fileids(main: &str) -> i32 {
+    let analysis = load(main);
+    let db = analysis.compilation.get_db();
+    let mut files = Map::new();
+    for id in db.get_vfs().get_all_local_file_ids() {
+        if db.get_module_index().is_std(&id) {
+            continue;
+        }
+        if let Some(p) = db.get_vfs().get_file_path(&id) {
+            files.insert(p.to_string_lossy().to_string(), json!(id.id));
+        }
+    }
+    println!("{}", json!({"files": files}));
+    0
+}
